@@ -61,8 +61,12 @@ func C15(r *core.Run) int {
 		bases = append(bases, base{c.ID, c.Spec})
 	}
 	bases = append(bases, base{"mapfat-4", specgen.MapFat(4).Spec})
-	for _, c := range specgen.FamilyCases(r.Seed, false) {
-		if len(bases) < 400 {
+	famMax := 40
+	if r.Thorough() {
+		famMax = 300
+	}
+	for _, c := range Sample(specgen.FamilyCases(r.Seed, false), famMax, r.Seed+13) {
+		if c.Spec != nil {
 			bases = append(bases, base{c.ID, c.Spec})
 		}
 	}
